@@ -34,6 +34,64 @@ def _terminal(e, dom):
         return ('err', type(ex).__name__)
 
 
+def mixed_1d_sum(g):
+    """1D: a sum of 2-4 vector-valued terms taken from BOTH representation families, at least one of each:
+    terms lowered to a 1x1 matrix (F, s*F, -G, c*F, x*F, laplace(F)) and terms lowered to a bare scalar
+    (grad(s), c*grad(s), s*grad(s')).  The canonical Add.args order of the generic sum decides which
+    representation the lowering meets first, and the random names / coefficients produce both orders
+    (matrix before scalar: f*F + grad(g), 2*grad(f) - G; scalar before matrix: grad(h) + F).
+    Seeded change C01-9 handled one order only."""
+    r, env, C = g.rng, g.env, g.C
+
+    def sc():
+        return r.choice(env.sf) if r.random() < 0.7 else g.scalar(g.maxdepth - 1)
+
+    def mat_term():
+        k = r.random()
+        F = r.choice(env.vf)
+        if k < 0.25:
+            return F
+        if k < 0.5:
+            return sc() * F
+        if k < 0.65:
+            return -F
+        if k < 0.8:
+            return g.coef() * F
+        if k < 0.9:
+            return env.coords[0] * F
+        return C.laplace(F)
+
+    def sca_term():
+        k = r.random()
+        if k < 0.4:
+            return C.grad(sc())
+        if k < 0.7:
+            return g.coef() * C.grad(r.choice(env.sf))
+        return r.choice(env.sf) * C.grad(sc())
+
+    terms = [mat_term(), sca_term()] + [(mat_term if r.random() < 0.5 else sca_term)() for _ in range(r.choice([0, 0, 1, 2]))]
+    return sympy.Add(*terms)
+
+
+def laplace_of_matrix(g):
+    """2D/3D: the component-wise Laplacian of a MATRIX-valued expression (grad of a vector, hessian, sums and
+    scalar multiples of them), alone, in a matrix sum, times a scalar, iterated, or under div (a vector).
+    GenericGen only applies laplace to scalars and vectors.  Seeded change C01-10 ('laplace = div(grad)')
+    returned the n x n Laplacian flattened to an n^2 x 1 column."""
+    r, env, C = g.rng, g.env, g.C
+    L = C.laplace(g.matrix(g.maxdepth - 1))
+    k = r.random()
+    if k < 0.35:
+        return 'matrix', L
+    if k < 0.55:
+        return 'matrix', L + g.matrix(g.maxdepth - 1)
+    if k < 0.7:
+        return 'matrix', r.choice(list(env.sf) + [g.coef()]) * L
+    if k < 0.8:
+        return 'matrix', C.laplace(L)
+    return 'vector', C.div(L)
+
+
 def gen_cases(ctx, n, maxdepth):
     rng = ctx.rng
     envs = {}
@@ -49,7 +107,13 @@ def gen_cases(ctx, n, maxdepth):
         env = envs[key]
         g = GenericGen(rng, env, maxdepth=maxdepth)
         try:
-            kind, e = g.any()
+            q = rng.random()
+            if dim == 1 and q < 0.3:
+                kind, e = 'vector', mixed_1d_sum(g)
+            elif dim > 1 and q < 0.08:
+                kind, e = laplace_of_matrix(g)
+            else:
+                kind, e = g.any()
         except Exception:
             continue      # the constructors themselves refused (C02 territory)
         if not hasattr(e, 'args') or tree_size(e) > MAXSIZE:
@@ -199,6 +263,35 @@ def fixed_corpus():
             (e1, 'scalar', sympy.sin(C.div(F1)), 'corpus:sin(div F) 1d'),
             (e1, 'scalar', C.inner(F1, G1), 'corpus:inner 1d'),
             (e1, 'scalar', C.inner(C.grad(F1), C.grad(G1)), 'corpus:inner(grad,grad) 1d')]
+    # ... in EITHER order of the canonical Add.args: the family {1x1-matrix term} + {bare-scalar term}, on a mapped
+    # and an unmapped 1D domain (seeded change C01-9 only handled 'scalar partial sum, then a 1x1 matrix';
+    # f*F + grad(g) and 2*grad(f) - G put the matrix term first, grad(h) + F above the scalar term)
+    for env1 in (e1, Env(1, True, tag='k')):
+        f1, g1, h1 = env1.sf
+        Fa, Ga, Ha = env1.vf
+        x1 = env1.coords[0]
+        sfx = ' logical' if env1.logical else ''
+        mats = [('F', Fa), ('f*F', f1 * Fa), ('-G', -Ga), ('x*G', x1 * Ga), ('laplace(H)', C.laplace(Ha))]
+        scas = [('grad(g)', C.grad(g1)), ('2*grad(f)', 2 * C.grad(f1)), ('h*grad(g)', h1 * C.grad(g1))]
+        for mn, mt in mats:
+            for sn, st in scas:
+                out.append((env1, 'vector', mt + st, 'corpus:1d-mixed%s:%s+%s' % (sfx, mn, sn)))
+        out += [(env1, 'vector', f1 * Fa + C.grad(g1) + Ga, 'corpus:1d-mixed%s:f*F+grad(g)+G' % sfx),
+                (env1, 'vector', -Ga + C.grad(f1 * g1), 'corpus:1d-mixed%s:-G+grad(f*g)' % sfx),
+                (env1, 'vector', C.grad(h1) + C.grad(g1) + f1 * Fa - 3 * Ha, 'corpus:1d-mixed%s:grad(h)+grad(g)+f*F-3H' % sfx)]
+    # laplace of a MATRIX-valued argument is the component-wise Laplacian, an n x n matrix (seeded change C01-10
+    # returned it flattened to n^2 x 1): alone, in a matrix sum, times a scalar, under div
+    for envm in (e2, e3, Env(2, True, tag='k'), Env(3, True, tag='k')):
+        fm, gm_, hm = envm.sf
+        Fm, Gm, Hm = envm.vf
+        sfx = ' %dd%s' % (envm.dim, ' logical' if envm.logical else '')
+        out += [(envm, 'matrix', C.laplace(C.grad(Fm)), 'corpus:laplace(grad F)' + sfx),
+                (envm, 'matrix', C.laplace(C.hessian(fm)), 'corpus:laplace(hessian f)' + sfx),
+                (envm, 'matrix', C.laplace(fm * C.grad(Fm)), 'corpus:laplace(f*grad F)' + sfx),
+                (envm, 'matrix', C.laplace(C.grad(Fm)) + C.grad(Gm), 'corpus:laplace(grad F)+grad(G)' + sfx),
+                (envm, 'vector', C.div(C.laplace(C.grad(Fm))), 'corpus:div(laplace(grad F))' + sfx),
+                (envm, 'matrix', hm * C.laplace(C.hessian(gm_)) + C.laplace(C.laplace(C.grad(Hm))),
+                 'corpus:h*laplace(hessian g)+laplace(laplace(grad H))' + sfx)]
     return out
 
 
